@@ -8,7 +8,7 @@ import tempfile
 from ..evalr import Evaluator, Obj, Dct, FuncV
 from ..progdb import ModuleInfo, FunctionInfo
 from ..spec import GAMMAS, GROUP, SCORES, FRAUD, CM, POS, NEG, T, returns, raises, unmodelled_text, pc_text
-from ..terms import App, Const, Num, Sym, Tup, Star, same, show, atoms_of, walk
+from ..terms import App, Const, Num, Sym, Tup, Star, V, same, show, atoms_of, walk
 from .. import libmodel
 from .thr import METRICS, ALIASES, METHODS, R, explore_threshold, explore_rate
 from . import c11
@@ -357,6 +357,72 @@ def global_state_rule(ctx, chk, rule="R10.1", modules=None, strict=True):
         chk.hold(rule, "no-global-state" + ("" if modules is None else ":" + ",".join(modules)), "no module-level mutable container is written from a function body; no functools cache", nontrivial=False)
 
 
+TOLERANCE_FNS = {"isclose", "allclose", "m:round", "round", "around"}
+_SIZE_FNS = {"len", "shape", "ndim", "size", "attr:shape", "attr:ndim", "attr:size", "attr:dtype"}
+
+
+def _value_syms(v, out):
+    """Symbols a term depends on through their VALUES (not merely through their length / shape / dtype)."""
+    from ..evalr import Obj as _Obj
+    if isinstance(v, Sym):
+        out.add(v)
+    elif isinstance(v, Num):
+        for a in v.poly.atoms():
+            _value_syms(a, out)
+    elif isinstance(v, App):
+        if v.fn in _SIZE_FNS:
+            return
+        for a in v.args:
+            _value_syms(a, out)
+        for _k, a in v.kw:
+            _value_syms(a, out)
+    elif isinstance(v, Tup):
+        for a in v.items:
+            _value_syms(a, out)
+    elif isinstance(v, Star):
+        _value_syms(v.inner, out)
+
+
+def _terms_of(v, depth=0):
+    from ..evalr import Obj as _Obj, Lst as _Lst
+    if depth > 4:
+        return
+    if isinstance(v, V):
+        yield v
+    elif isinstance(v, _Obj):
+        for a in v.attrs.values():
+            yield from _terms_of(a, depth + 1)
+    elif isinstance(v, _Lst):
+        for a in v.items:
+            yield from _terms_of(a, depth + 1)
+
+
+def tolerance_findings(o):
+    """Approximate comparisons (np.isclose / allclose / rounding) of the query's exact inputs - the scores, the threshold, the target -
+    that steer the result.  Every property quantifies over ties, one-ulp neighbours and arbitrary magnitudes of these inputs, so a decision
+    taken 'up to 1e-5 relative' is wrong for inputs in the quantifier (numpy's default rtol is relative to the MAGNITUDE of the scores).
+    Comparisons of derived ratios of COUNTS (eer's isclose of the two hard fractions) do not involve an exact input and are not reported."""
+    out = []
+    roots = [c for c, _t in o.pc] + list(_terms_of(o.value))
+    for e in o.events:      # loop iterables, appended values, stored values: whatever the path computed with
+        if e["kind"] in ("for", "list_append", "elem_append", "store", "inplace", "while_iter"):
+            roots += [x for x in e.values() if isinstance(x, V)]
+    seen = set()
+    for r in roots:
+        found = []
+        walk(r, lambda x: found.append(x) if isinstance(x, App) and x.fn in TOLERANCE_FNS else None)
+        for a in found:
+            if a.key in seen:
+                continue
+            seen.add(a.key)
+            syms = set()
+            _value_syms(a, syms)
+            exact = sorted((s_ for s_ in syms if ("param" in s_.tags and "array" in s_.tags) or s_.name in ("pos", "neg") or "param_scalar" in s_.tags), key=lambda s_: s_.name)
+            if exact:
+                out.append(("tolerance-comparison", "%s compares %s only up to a tolerance" % (show(a, 90), ", ".join(x.name for x in exact[:3])), {"node": None}))
+    return out
+
+
 def purity(ctx, chk, only=None, strict=None):
     """strict (C10 itself): any hidden per-object state is a mutation of the object.  Non-strict (prerequisite of other
     properties): a memo is accepted when its key determines the stored value (memo_unsound)."""
@@ -376,6 +442,7 @@ def purity(ctx, chk, only=None, strict=None):
         rng = []
         for o in outs:
             finds += mutation_findings(o, strict, ctx.db)
+            finds += tolerance_findings(o)
             rng += [e for e in o.events if e["kind"] == "rng"]
         seen = set()
         for kind, msg, e in finds:
@@ -383,7 +450,8 @@ def purity(ctx, chk, only=None, strict=None):
             if k in seen:
                 continue
             seen.add(k)
-            chk.violation("R10.1", q, "%s:%s:%s" % (label, kind, msg[:70]), msg, "no query mutates the object or caller-supplied arrays",
+            chk.violation("R10.1", q, "%s:%s:%s" % (label, kind, msg[:70]), msg,
+                          "exact comparisons of scores / thresholds / targets (ties and one-ulp neighbours are in the quantifier)" if kind == "tolerance-comparison" else "no query mutates the object or caller-supplied arrays",
                           "%s line %s" % (ctx.where(q), getattr(e.get("node"), "lineno", "?")))
         if rng:
             chk.violation("R10.1", q, label + ":rng", "random draw %s reachable" % rng[0]["fn"], "deterministic query (repeat gives identical results)",
